@@ -34,7 +34,7 @@ var allKinds = []string{kU, kSS, kCS, kBD}
 
 // caseSpec is one member of the grammar; it is also the replay object.
 type caseSpec struct {
-	Kind     string     `json:"kind"`                  // gen | files | invalid-opt | regen
+	Kind     string     `json:"kind"`                  // gen | files | mtypes | invalid-opt | regen
 	Services [][]string `json:"services,omitempty"`    // per service of the main file: method kinds in declaration order
 	Naming   string     `json:"naming,omitempty"`      // camel | snake
 	Pkg      string     `json:"pkg"`                   // proto package: p | a.b.c | "" (none)
@@ -58,6 +58,10 @@ type caseSpec struct {
 	FileKinds []string `json:"file_kinds,omitempty"`
 	Layout    string   `json:"layout,omitempty"` // one-pkg: every file has the same go_package | pkg-per-file
 
+	// kind "mtypes": per service of the main file, per method "<kind>:<request>><response>", the two
+	// messages being letters of msgAlphabet (mtypes.go): every method has its own pair of types
+	Methods [][]string `json:"methods,omitempty"`
+
 	// set for members of a fully crossed option group (not part of the replay object): the case
 	// without its options, and the option set as a mask over optAtoms
 	xcross bool
@@ -66,6 +70,9 @@ type caseSpec struct {
 }
 
 func (c caseSpec) typesKey() string {
+	if c.Kind == "mtypes" {
+		return "per-method"
+	}
 	k := c.Req + c.Resp
 	if c.Dep != "" {
 		k += "/" + c.Dep
@@ -90,6 +97,13 @@ func (c caseSpec) shapeKey() string {
 	}
 	if c.DepPath != "" {
 		k += "&imported:" + c.DepPath
+	}
+	if c.Methods != nil {
+		var ms []string
+		for _, svc := range c.Methods {
+			ms = append(ms, strings.Join(svc, ","))
+		}
+		k += "methods:" + strings.Join(ms, "+")
 	}
 	if c.FileKinds != nil {
 		k += "files:" + strings.Join(c.FileKinds, ",") + "&layout:" + c.Layout
@@ -287,6 +301,9 @@ func buildModel(c caseSpec) (*requestModel, error) {
 	if c.Kind == "files" {
 		return buildFilesModel(c)
 	}
+	if c.Kind == "mtypes" {
+		return buildMTypesModel(c)
+	}
 	rm := &requestModel{Param: c.Param, Order: c.Order}
 	if c.Order != "" && c.Order != "dependent-first" {
 		return nil, fmt.Errorf("unknown file order %q", c.Order)
@@ -397,18 +414,21 @@ func fileProto(f *fileModel, rm *requestModel) *descriptorpb.FileDescriptorProto
 		fd.Package = proto.String(f.ProtoPkg)
 	}
 	// messages: top-level ones and the nested pair under Outer
-	var outer *descriptorpb.DescriptorProto
+	// (a name "<Parent>.<Child>" declares Child inside the field-less message Parent)
+	parents := map[string]*descriptorpb.DescriptorProto{}
 	for _, m := range f.Msgs {
 		rel := strings.TrimPrefix(m.Proto, f.ProtoPkg+".")
 		if f.ProtoPkg == "" {
 			rel = m.Proto
 		}
-		if strings.HasPrefix(rel, "Outer.") {
+		if par, child, nested := strings.Cut(rel, "."); nested {
+			outer := parents[par]
 			if outer == nil {
-				outer = &descriptorpb.DescriptorProto{Name: proto.String("Outer")}
+				outer = &descriptorpb.DescriptorProto{Name: proto.String(par)}
+				parents[par] = outer
 				fd.MessageType = append(fd.MessageType, outer)
 			}
-			outer.NestedType = append(outer.NestedType, &descriptorpb.DescriptorProto{Name: proto.String(strings.TrimPrefix(rel, "Outer."))})
+			outer.NestedType = append(outer.NestedType, &descriptorpb.DescriptorProto{Name: proto.String(child)})
 			continue
 		}
 		fd.MessageType = append(fd.MessageType, &descriptorpb.DescriptorProto{
